@@ -246,7 +246,9 @@ PROPS["C14"] = dict(
     level="proof",
     translators=["guards.py"],
     technique="Lean 4 theorems (refused <=> incompatible for the transcribed guards of apply/time_evolve, ax_plus_y, the "
-              "constructor and the propagator arguments) + exhaustive run of the incompatible-argument product and a "
+              "constructor, the propagator arguments, the operator-index guard and the RDM-pattern parser; the inventory of "
+              "all 103 raise/assert guards of the anchored modules and the branch skeleton of apply, regenerated from the "
+              "Python sources by translate/guards.py, equal the reviewed tables) + exhaustive run of the incompatible-argument product and a "
               "hostile-value battery in guarded child interpreters (also under python -O)",
     text="The decision tables are proved equivalent to the written-out incompatibility predicates; the real entry points "
          "are driven through the full product of incompatible combinations (outcome class from the Lean table, operand "
